@@ -15,7 +15,9 @@ from .common import K, Mode
 EXPLANATION = ('Two-run relational symbolic execution: the real solver is run on symbolic inputs and on the same inputs '
                're-expressed in other units (each multiplied by m^a l^b s^c th^d for fresh positive mass/length/time/temperature '
                'scale factors, exponents from the dimension catalogue below); z3 decides that every output is the original output '
-               'multiplied by the scale factors its own dimension dictates, on every pair of feasible paths.')
+               'multiplied by the scale factors its own dimension dictates, on every pair of feasible paths.  Heavy solvers: the '
+               'infinitesimal (Euler homogeneity) form, one run with exact derivatives.  Riemann, quick tier: every kernel the driver '
+               'composes (star-pressure functions, limiting velocities, wave curves, fan formulas) is homogeneous of its dimension.')
 BOUNDS = ['geometry enumerated; one evaluation point; gamma sliced for Riemann/Sedov/Mader; heat series truncated at Nsum = 2']
 OUTSIDE = ['unit-invariance of numerical tolerances (osmall, vtol, int_tol, bisect xtol) and of internal grids',
            'Guderley: mass and length scalings only (its time is the documented Caramana-Whalen normalised time); Noh2: mass and '
